@@ -200,7 +200,9 @@ const ORDERS: [[u64; 3]; 6] = [[0, 1, 2], [0, 2, 1], [1, 0, 2], [1, 2, 0], [2, 0
 /// `focus`: the function whose obligation failed (steers which operations are generated)
 pub fn candidates(function: &str, seed: u64) -> Vec<Value> {
     let mut out = vec![];
-    let smooth_only = function.contains("smooth");
+    let smooth_only = function.contains("smooth") || function.contains("prop:C08");
+    // shape / canonicity conditions belong to C02 only
+    let shape = !function.contains("prop:") || function.contains("prop:C02");
     // systematic: every operation on every pair of literals / small functions, all orders, both caches
     let lits: Vec<Value> = (0..3).flat_map(|l| vec![json!(["var", l, true]), json!(["var", l, false])]).collect();
     for order in ORDERS.iter() {
@@ -238,7 +240,7 @@ pub fn candidates(function: &str, seed: u64) -> Vec<Value> {
                             q.push(json!(["neg", k]));
                             q.push(json!(["cond", k + 4, l, true]));
                             q.push(json!(["compose", k, l, (i + 1) % base]));
-                            out.push(json!({"case": "bdd_prog", "order": order, "cache": cache, "ops": q}));
+                            out.push(json!({"case": "bdd_prog", "order": order, "cache": cache, "ops": q, "shape": shape}));
                         }
                     }
                 }
@@ -271,7 +273,7 @@ pub fn candidates(function: &str, seed: u64) -> Vec<Value> {
             ops.push(op);
         }
         let _ = t;
-        out.push(json!({"case": "bdd_prog", "order": order, "cache": cache, "ops": ops}));
+        out.push(json!({"case": "bdd_prog", "order": order, "cache": cache, "ops": ops, "shape": shape}));
     }
     out
 }
